@@ -67,6 +67,37 @@ def drive(a, b, c, d):
     return f(a, b)
 ''', vars=["node", "depth", "item"], forms=["tuple target that is also the source"], ctx=["depth"])
 
+T("unpack_order", '''
+def f(lst, o, x, y):
+    i = 0
+    i, lst[i] = pick(x, 3), y
+    j, o.val = 1, i + y
+    [k, lst[k], (k, lst[k])] = [0, x, (pick(y, 3), i)]
+    return (i, j, k)
+
+def drive(a, b, c, d):
+    lst = [0, 0, 0]
+    o = Obj(val=0)
+    r = f(lst, o, a, b)
+    return (r, lst, o.val)
+''', vars=["i", "j", "k"], forms=["unpacking whose later targets use the names bound by earlier ones"], ctx=["i"])
+
+T("builtin_shadow", '''
+def f(x):
+    y = abs(x) + 1
+    return y
+
+def drive(a, b, c, d):
+    g = globals()
+    r1 = f(a)
+    if pick(c, 2):
+        g["abs"] = lambda v: v * 2
+    r2 = f(a)
+    g.pop("abs", None)
+    r3 = f(a)
+    return (r1, r2, r3)
+''', vars=["y"], forms=["builtin shadowed by a module global between calls"])
+
 T("unpack_kinds", '''
 def f(k, x, y):
     src = mkiter(k, x, y)
